@@ -659,3 +659,54 @@ func init() {
 		return sched.Config{Bounds: b, Iterative: true, MaxSteps: 100000}, c02redirectTargetBody
 	}})
 }
+
+// ---------------------------------------------------------------------------
+// C02 (S) a SCAN call that addresses the last node arrives while that node is removed from (or added to, or marked
+// unhealthy in) the host list.
+//
+// bound     all schedules P2 (quick) / P3 F1 (thorough) of that moment (set-up on the default schedule)
+// oracle    the call gets exactly one reply (the keys, a terminating reply or an error), nothing panics
+// ---------------------------------------------------------------------------
+
+func c02scanHostChangeBody() {
+	sched.SetQuiet(true)
+	change := []string{"remove", "replace-with-first", "mark-unhealthy"}[sched.Choose(sched.ClsInput, 3, "change")]
+	cl := cluster.New(2, 0, 2)
+	s := vfStartStack(cl, vfSvcConfig(0, nil, 0))
+	c := s.NewClient("c0")
+	last := cl.Nodes[1]
+	sched.WaitQuiescent()
+	sched.SetQuiet(false)
+	sched.GoNamed("host-change", func() {
+		switch change {
+		case "remove":
+			s.p.OnSvcHostRemove([]*host.Host{host.New(last.Addr)})
+		case "replace-with-first":
+			s.p.OnSvcAllHostReplace([]*host.Host{host.New(cl.Nodes[0].Addr)})
+		case "mark-unhealthy":
+			for _, h := range s.p.u.hosts.All() {
+				if h.Addr == last.Addr {
+					s.p.u.hosts.MarkHostUnhealthy(h)
+				}
+			}
+		}
+	})
+	c.Send(resp.Encode(resp.Cmd("SCAN", "281474976710656"))) // node 1, cursor 0
+	sched.WaitQuiescent()
+	sched.SetQuiet(true)
+	rs, _ := c.Pending()
+	if len(rs) != 1 {
+		sched.Fail("not-exactly-one-reply / SCAN racing a host-list change", fmt.Sprintf("%s: %d replies", change, len(rs)))
+	}
+	sched.SetOutcome(change)
+}
+
+func init() {
+	sched.Register(&sched.Scenario{Name: "C02/scan-host-change", Setup: func(tier string) (sched.Config, func()) {
+		b := sched.Bounds{P: 2}
+		if tier == "thorough" {
+			b = sched.Bounds{P: 3, F: 1}
+		}
+		return sched.Config{Bounds: b, Iterative: true, MaxSteps: 200000}, c02scanHostChangeBody
+	}})
+}
